@@ -263,8 +263,13 @@ class AstToSqlVisitor(visitor.NodeVisitor):
         # In case of a subexpression, wrap it in parentheses
         if isinstance(node.operand, ast.BoolOp):
             operand = f"({operand})"
-        elif isinstance(node.op, ast.USub) and isinstance(
-            node.operand, (ast.BinOp, ast.Compare)
+        elif isinstance(node.op, ast.USub) and (
+            isinstance(node.operand, (ast.BinOp, ast.Compare))
+            or (
+                # indexof is rendered as 'POSITION(..) - 1', an arithmetic expression:
+                isinstance(node.operand, ast.Call)
+                and node.operand.func.name.lower() == "indexof"
+            )
         ):
             operand = f"({operand})"
 
